@@ -2,6 +2,7 @@ import LLRP.Proofs.ClientLive
 import LLRP.Gen.Chans
 import LLRP.Proofs.SeqSend
 import LLRP.Proofs.SeqReadLoop
+import LLRP.Proofs.SeqWriteLoop
 /-!
 # C09 — close, shutdown, failure and cancellation never leave a caller stuck
 
@@ -496,5 +497,24 @@ theorem src_read_loop_failure (E : Gen.Env_llrp_Client_handleIncoming) (fuel : N
     Gen.llrp_Client_handleIncoming_loop1 E (fuel + 1) w false
       = some ((E.Client_readHeader_1 (E.select_1 w (E.Client_done w)).1).1, .new "failed to get next message: %v") :=
   SeqClient.handleIncoming_read_error E fuel w hsel herr
+
+/-! ## the write loop as translated from the source
+
+`Gen.llrp_Client_handleOutgoing` is the go2seq translation of the write loop (regenerated from `reader.go` on every run);
+`SeqWrite.woEnv O` is an environment whose every choice (which `select` case proceeds, the ids in the ack queue, the
+requests in the send queue, failing writes, `c.ver()`, the timeout) is read from the oracle `O`, and which logs what the
+loop does; `SeqWrite.mrun` is the monitor over that log (`SeqWrite.mstep` states the rules). The theorem holds for every
+oracle and every number of iterations. -/
+
+/-- once a CloseConnection header is written the translated write loop dequeues, registers and writes nothing more,
+and it waits for `done` only then (`mstep`: every case requires `!closed`; `waitDone` requires `closed`) -/
+theorem src_parks_after_close (O : SeqWrite.Oracle) (fuel : Nat) (w' : SeqWrite.WW) (e : GoSeq.GoErr)
+    (h : Gen.llrp_Client_handleOutgoing (SeqWrite.woEnv O) fuel {} = some (w', e)) : (SeqWrite.mrun w'.log).ok = true :=
+  SeqWrite.src_write_loop_monitor O fuel w' e h
+
+/-- the write loop never returns success, for every environment structure -/
+theorem src_write_loop_never_nil (E : Gen.Env_llrp_Client_handleOutgoing) (fuel : Nat) (w : E.World) (next : Int)
+    (w' : E.World) (e : GoSeq.GoErr) (h : Gen.llrp_Client_handleOutgoing_loop1 E fuel w next = some (w', e)) : e ≠ .nil :=
+  SeqWrite.write_loop_never_nil E fuel w next w' e h
 
 end LLRP.C09
